@@ -1,7 +1,12 @@
 --------------------------------- MODULE Crash ---------------------------------
 (***************************************************************************)
 (* Crash recovery of the chain database (C08).  The disk is what bolt has  *)
-(* committed: every named Update of the node is one atomic step.           *)
+(* committed.  A named Update of the node is TWO steps, as in bolt: the     *)
+(* dirty data pages are written (to pages the committed state does not     *)
+(* reference: `pending`), then the meta page is written, which is what     *)
+(* makes the new state the committed one.  A crash between or inside the   *)
+(* two leaves the old state (a torn meta page fails its checksum and the   *)
+(* other meta page - the old state - is used).                             *)
 (* Abstract disk: buckets (created?), index (height of the per-address     *)
 (* unspent index, -1 = none), history (height the history is parsed to,    *)
 (* -1 = none), blocks (number of blocks incl. genesis), pool (number of    *)
@@ -18,16 +23,21 @@
 EXTENDS Integers, Sequences, TLC
 CONSTANTS NBlocks, MaxCrashes
 
-VARIABLES disk, phase, next, crashes, log
-vars == <<disk, phase, next, crashes, log>>
+VARIABLES disk, phase, next, crashes, log,
+          pending      \* None, or the state whose data pages are (being) written but whose meta page is not
+vars == <<disk, phase, next, crashes, log, pending>>
 
 Empty == [buckets |-> FALSE, index |-> -1, history |-> -1, blocks |-> 0, pool |-> 0]
 \* the script: block k is preceded by the injection of its transaction (then pruned from the pool when confirmed)
 Script == [i \in 1..(2 * NBlocks) |-> IF i % 2 = 1 THEN [ev |-> "inject", k |-> (i + 1) \div 2] ELSE [ev |-> "block", k |-> i \div 2]]
 
-Init == disk = Empty /\ phase = "boot1" /\ next = 1 /\ crashes = 0 /\ log = << >>
+None == [name |-> "none", d |-> Empty]
+Init == disk = Empty /\ phase = "boot1" /\ next = 1 /\ crashes = 0 /\ log = << >> /\ pending = None
 
-Commit(name, d) == disk' = d /\ log' = Append(log, name)
+\* a commit: first step (data pages), enabled when nothing is pending; second step: WriteMeta below
+Commit(name, d) == pending = None /\ pending' = [name |-> name, d |-> d] /\ UNCHANGED <<disk, log>>
+NoCommit == pending = None /\ UNCHANGED <<disk, log, pending>>
+WriteMeta == pending # None /\ disk' = pending.d /\ log' = Append(log, pending.name) /\ pending' = None /\ UNCHANGED <<phase, next, crashes>>
 Boot1 == phase = "boot1" /\ Commit("CreateBuckets", [disk EXCEPT !.buckets = TRUE]) /\ phase' = "boot2" /\ UNCHANGED <<next, crashes>>
 \* the index and the history are (re)built up to the head when they are behind
 Boot2 == phase = "boot2" /\ Commit("build unspent indexes and init history",
@@ -39,16 +49,17 @@ Boot3 == phase = "boot3" /\ Commit("visor init", IF disk.blocks = 0 THEN [disk E
 Run == /\ phase = "run" /\ next <= Len(Script)
        /\ LET e == Script[next] IN
           IF e.ev = "block" THEN
-             IF e.k < disk.blocks THEN UNCHANGED <<disk, log>>
+             IF e.k < disk.blocks THEN NoCommit
              ELSE Commit("ExecuteSignedBlock", [disk EXCEPT !.blocks = @ + 1, !.index = @ + 1, !.history = @ + 1, !.pool = 0])
-          ELSE IF e.k < disk.blocks THEN UNCHANGED <<disk, log>>
+          ELSE IF e.k < disk.blocks THEN NoCommit
                ELSE Commit("InjectForeignTransaction", [disk EXCEPT !.pool = 1])
        /\ next' = next + 1 /\ UNCHANGED <<phase, crashes>>
+\* anywhere: between commits, or inside one (what was written of the pending state is lost, the disk is the old state)
 Crash == /\ crashes < MaxCrashes /\ phase # "done"
-         /\ crashes' = crashes + 1 /\ phase' = "boot1" /\ next' = 1 /\ UNCHANGED <<disk, log>>
-Finish == phase = "run" /\ next > Len(Script) /\ phase' = "done" /\ UNCHANGED <<disk, next, crashes, log>>
-Next == Boot1 \/ Boot2 \/ Boot3 \/ Run \/ Crash \/ Finish
-Spec == Init /\ [][Next]_vars /\ WF_vars(Boot1 \/ Boot2 \/ Boot3 \/ Run \/ Finish)
+         /\ crashes' = crashes + 1 /\ phase' = "boot1" /\ next' = 1 /\ pending' = None /\ UNCHANGED <<disk, log>>
+Finish == phase = "run" /\ next > Len(Script) /\ pending = None /\ phase' = "done" /\ UNCHANGED <<disk, next, crashes, log, pending>>
+Next == Boot1 \/ Boot2 \/ Boot3 \/ Run \/ WriteMeta \/ Crash \/ Finish
+Spec == Init /\ [][Next]_vars /\ WF_vars(Boot1 \/ Boot2 \/ Boot3 \/ Run \/ WriteMeta \/ Finish)
 
 \* the verification walks the stored blocks; it is skipped without buckets; with buckets and no block there is nothing to walk
 Verify(d) == IF ~d.buckets \/ d.blocks = 0 THEN "ok"
